@@ -11,6 +11,10 @@ import (
 	"strconv"
 	"strings"
 
+	"github.com/dolthub/go-mysql-server/sql"
+	gmstypes "github.com/dolthub/go-mysql-server/sql/types"
+
+	"github.com/dolthub/dolt/go/libraries/doltcore/schema"
 	"github.com/dolthub/dolt/go/store/pool"
 	"github.com/dolthub/dolt/go/store/prolly/tree"
 	"github.com/dolthub/dolt/go/store/val"
@@ -50,6 +54,26 @@ type Case struct {
 	SQLTy  int    `json:"sqlty"` // 0 longtext, 1 longblob, 2 json
 	Vals   []Spec `json:"vals"`
 	Prefix int    `json:"prefix"`
+	CKind  int    `json:"ckind"` // cmp cases: 0 utf8mb4_0900_ai_ci, 1 utf8mb4_0900_bin, 2 JSON
+	XS     string `json:"xs"`    // hex of x / y (UTF-8 text or a JSON literal)
+	YS     string `json:"ys"`
+	SQL    bool   `json:"sql"`
+}
+
+type CmpObs struct {
+	XY          []*int   `json:"xy"` // ii io oi oo
+	YX          []*int   `json:"yx"`
+	RefXY       int      `json:"ref_xy"`
+	RefYX       int      `json:"ref_yx"`
+	TupleXY     int      `json:"tuple_xy"`
+	TupleYX     int      `json:"tuple_yx"`
+	InlineX     bool     `json:"inline_x"`
+	InlineY     bool     `json:"inline_y"`
+	LenX        int      `json:"len_x"`
+	LenY        int      `json:"len_y"`
+	SQLDistinct int      `json:"sql_distinct"`
+	SQLFirst    int      `json:"sql_first"`
+	Notes       []string `json:"notes,omitempty"`
 }
 
 type ApiObs struct {
@@ -89,6 +113,7 @@ type SqlObs struct {
 type Obs struct {
 	Api *ApiObs `json:"api,omitempty"`
 	Sql *SqlObs `json:"sql,omitempty"`
+	Cmp *CmpObs `json:"cmp,omitempty"`
 }
 
 func fromBytes(b []byte) []int {
@@ -454,10 +479,214 @@ func runSQL(c Case) (*SqlObs, error) {
 	return o, nil
 }
 
+// runCmp: comparison of two adaptive values under a collation / as JSON documents, in every
+// representation combination and both operand orders, at the value store, at the tuple comparator and
+// (collated text) through SQL. The reference is go-mysql-server's comparator on the whole values.
+func runCmp(c Case) (*CmpObs, error) {
+	ctx := context.Background()
+	ns := tree.NewTestNodeStore()
+	x, err := hex.DecodeString(c.XS)
+	if err != nil {
+		return nil, err
+	}
+	y, err := hex.DecodeString(c.YS)
+	if err != nil {
+		return nil, err
+	}
+	o := &CmpObs{}
+	var cmp func(l, r val.AdaptiveValue) (int, error)
+	var typ val.Type
+	var args val.TupleDescriptorArgs
+	collName := "utf8mb4_0900_ai_ci"
+	if c.CKind == 2 {
+		// stored format of the documents
+		canon := func(b []byte) ([]byte, error) {
+			var v interface{}
+			if err := json.Unmarshal(b, &v); err != nil {
+				return nil, err
+			}
+			return gmstypes.MarshallJson(ctx, gmstypes.JSONDocument{Val: v})
+		}
+		if x, err = canon(x); err != nil {
+			return nil, err
+		}
+		if y, err = canon(y); err != nil {
+			return nil, err
+		}
+		var vx, vy interface{}
+		_ = json.Unmarshal(x, &vx)
+		_ = json.Unmarshal(y, &vy)
+		r, err := gmstypes.CompareJSON(ctx, vx, vy)
+		if err != nil {
+			return nil, err
+		}
+		o.RefXY = sign(r)
+		r, err = gmstypes.CompareJSON(ctx, vy, vx)
+		if err != nil {
+			return nil, err
+		}
+		o.RefYX = sign(r)
+		cmp = func(l, r val.AdaptiveValue) (int, error) { return ns.CompareAdaptive(ctx, l, r, val.JsonAdaptiveEnc) }
+		typ = val.Type{Enc: val.JsonAdaptiveEnc, Nullable: true}
+		args = val.TupleDescriptorArgs{ValueStore: ns}
+	} else {
+		coll := sql.Collation_utf8mb4_0900_ai_ci
+		if c.CKind == 1 {
+			coll = sql.Collation_utf8mb4_0900_bin
+			collName = "utf8mb4_0900_bin"
+		}
+		st := gmstypes.CreateLongText(coll)
+		r, err := st.Compare(ctx, string(x), string(y))
+		if err != nil {
+			return nil, err
+		}
+		o.RefXY = sign(r)
+		r, err = st.Compare(ctx, string(y), string(x))
+		if err != nil {
+			return nil, err
+		}
+		o.RefYX = sign(r)
+		cmp = func(l, r val.AdaptiveValue) (int, error) { return ns.CompareAdaptiveCollatedStrings(ctx, l, r, coll) }
+		typ = val.Type{Enc: val.StringAdaptiveEnc, Nullable: true}
+		args = val.TupleDescriptorArgs{Comparator: schema.CollationTupleComparator{Collations: []sql.CollationID{coll}}, ValueStore: ns}
+	}
+	o.LenX, o.LenY = len(x), len(y)
+	o.InlineX, o.InlineY = len(x)+1 <= c.Target, len(y)+1 <= c.Target
+	form := func(b []byte) (val.AdaptiveValue, val.AdaptiveValue, error) {
+		in := val.AdaptiveValue(val.AdaptiveValueInlineBytes(b))
+		if len(b) == 0 {
+			return in, in, nil
+		}
+		out, err := val.NewOutOfBandAdaptiveValue(ctx, ns, b)
+		return in, out, err
+	}
+	inX, outX, err := form(x)
+	if err != nil {
+		return nil, err
+	}
+	inY, outY, err := form(y)
+	if err != nil {
+		return nil, err
+	}
+	one := func(ok bool, l, r val.AdaptiveValue) (*int, error) {
+		if !ok {
+			return nil, nil
+		}
+		v, err := cmp(l, r)
+		if err != nil {
+			return nil, err
+		}
+		s := sign(v)
+		return &s, nil
+	}
+	row := func(il, ir bool, inL, outL, inR, outR val.AdaptiveValue) ([]*int, error) {
+		out := make([]*int, 4)
+		var err error
+		if out[0], err = one(il && ir, inL, inR); err != nil {
+			return nil, err
+		}
+		if out[1], err = one(il, inL, outR); err != nil {
+			return nil, err
+		}
+		if out[2], err = one(ir, outL, inR); err != nil {
+			return nil, err
+		}
+		if out[3], err = one(true, outL, outR); err != nil {
+			return nil, err
+		}
+		return out, nil
+	}
+	if o.XY, err = row(o.InlineX, o.InlineY, inX, outX, inY, outY); err != nil {
+		return nil, err
+	}
+	if o.YX, err = row(o.InlineY, o.InlineX, inY, outY, inX, outX); err != nil {
+		return nil, err
+	}
+	// tuple level: the builder decides the representation
+	td := val.NewTupleDescriptorWithArgs(args, typ)
+	bp := pool.NewBuffPool()
+	mk := func(b []byte) (val.Tuple, error) {
+		tb := val.NewTupleBuilder(td, ns).WithMaxRowSize(uint16(c.Target))
+		var err error
+		if c.CKind == 2 {
+			err = tb.PutAdaptiveJsonFromInline(ctx, 0, b)
+		} else {
+			err = tb.PutAdaptiveStringFromInline(ctx, 0, string(b))
+		}
+		if err != nil {
+			return nil, err
+		}
+		t, err := tb.Build(ctx, bp)
+		return append(val.Tuple{}, t...), err
+	}
+	tx, err := mk(x)
+	if err != nil {
+		return nil, err
+	}
+	ty, err := mk(y)
+	if err != nil {
+		return nil, err
+	}
+	r, err := td.Compare(ctx, tx, ty)
+	if err != nil {
+		return nil, err
+	}
+	o.TupleXY = sign(r)
+	if r, err = td.Compare(ctx, ty, tx); err != nil {
+		return nil, err
+	}
+	o.TupleYX = sign(r)
+	if c.SQL && c.CKind != 2 {
+		e, err := util.NewEnv(false)
+		if err != nil {
+			return nil, err
+		}
+		defer e.Close()
+		s, err := e.NewSession()
+		if err != nil {
+			return nil, err
+		}
+		note := func(f string, a ...any) { o.Notes = append(o.Notes, fmt.Sprintf(f, a...)) }
+		must := func(q string) {
+			if r := s.Exec(q); r.Err != "" {
+				qq := q
+				if len(qq) > 100 {
+					qq = qq[:100] + "..."
+				}
+				note("%s: %s", qq, r.Err)
+			}
+		}
+		must("create table tin (id int primary key, v longtext collate " + collName + ")")
+		must("create table tout (id int primary key, v longtext collate " + collName + ", p0 longtext, p1 longtext, p2 longtext)")
+		pad := "'" + strings.Repeat("p", 700) + "'"
+		must(fmt.Sprintf("insert into tin values (1, convert(x'%s' using utf8mb4))", hex.EncodeToString(x)))
+		must(fmt.Sprintf("insert into tout values (2, convert(x'%s' using utf8mb4), %s, %s, %s)", hex.EncodeToString(y), pad, pad, pad))
+		num := func(q string) int {
+			r := s.Exec(q)
+			if r.Err != "" || len(r.Rows) != 1 {
+				note("%s: %s", q, r.Err)
+				return 999999
+			}
+			v, _ := strconv.Atoi(strings.TrimPrefix(r.Rows[0][0], "i:"))
+			return v
+		}
+		// number of distinct values among {x in tin (inline when it fits), y in tout (forced out of band)} as the equality join
+		// sees it. (SELECT DISTINCT on a collated LONGTEXT is not collation-aware in the engine even for one-character inline
+		// values — 'e' and 'é' stay two rows — so it is not used here; GROUP BY and joins are.)
+		o.SQLDistinct = 2 - num("select count(*) from tin a join tout b on a.v = b.v")
+		o.SQLFirst = num("select id from (select id, v from tin union all select id, v from tout) u order by v, id limit 1")
+	}
+	return o, nil
+}
+
 func Run(raw json.RawMessage) (any, error) {
 	var c Case
 	if err := json.Unmarshal(raw, &c); err != nil {
 		return nil, err
+	}
+	if c.Kind == "cmp" {
+		o, err := runCmp(c)
+		return Obs{Cmp: o}, err
 	}
 	if c.Kind == "sql" {
 		o, err := runSQL(c)
